@@ -489,6 +489,11 @@ func (x *tr) coerce(v val, typ string) val {
 	if v.typ == "untyped-float" && typ == "float64" {
 		return val{coq: "(" + v.lit + ")%float", typ: typ}
 	}
+	if v.typ == "untyped-float" && isInt(typ) { // ext_shaping.go: `x - 1.0` with x an integer
+		if il, ok := integralFloatLit(v.lit); ok {
+			return val{coq: "(" + il + ")%Z", typ: typ}
+		}
+	}
 	fail("cannot use %s (%s) as %s", v.coq, v.typ, typ)
 	return v
 }
@@ -580,6 +585,9 @@ func (x *tr) expr(e ast.Expr) val {
 			}
 		}
 		if v, ok := x.selectorExt(s); ok {
+			return v
+		}
+		if v, ok := x.selectorShaping(s); ok { // ext_shaping.go
 			return v
 		}
 		fail("selector %s (add a hint)", s)
@@ -735,6 +743,9 @@ func (x *tr) convert(to string, v val) val {
 	if from == to {
 		return v
 	}
+	if w, ok := x.convertShaping(to, v); ok { // ext_shaping.go
+		return w
+	}
 	if isInt(from) && isInt(to) {
 		// value-preserving widenings
 		switch {
@@ -834,6 +845,9 @@ func (x *tr) call(e *ast.CallExpr) val {
 		return val{coq: "(negb (PrimFloat.eqb " + v.coq + " " + v.coq + "))", typ: "bool"}
 	}
 	if v, ok := x.callExt(fn, e); ok {
+		return v
+	}
+	if v, ok := x.callShaping(fn, e); ok { // ext_shaping.go
 		return v
 	}
 	fail("call %s (add a hint)", src(x.p.fset, e))
@@ -1083,6 +1097,9 @@ func (x *tr) exec1(stmts []ast.Stmt, rest [][]ast.Stmt) string { // called throu
 		if t, ok := x.vars[id.Name]; ok && t == "string" && s.Tok == token.ASSIGN {
 			return x.exec(tail, rest) // message text: not part of the decision
 		}
+		if x.assignPointer(s) { // ext_shaping.go: the object is not part of the decision
+			return x.exec(tail, rest)
+		}
 		if h, ok := x.t.Hints[src(x.p.fset, s.Rhs[0])]; ok && h.Typ == "opaque" && s.Tok == token.DEFINE {
 			x.vars[id.Name] = "ptr:?" // an object used only through further hints
 			return x.exec(tail, rest)
@@ -1133,6 +1150,9 @@ func (x *tr) exec1(stmts []ast.Stmt, rest [][]ast.Stmt) string { // called throu
 		}
 		if vs.Type != nil && src(x.p.fset, vs.Type) == "string" {
 			x.vars[vs.Names[0].Name] = "string"
+			return x.exec(tail, rest)
+		}
+		if x.declPointer(vs) { // ext_shaping.go
 			return x.exec(tail, rest)
 		}
 		var v val
@@ -1437,6 +1457,7 @@ func main() {
 	b.WriteString("From Coq Require Import ZArith Bool Floats.\nFrom SG Require Import Base.Prelude Base.GoInt Base.GoFloat.\n\n")
 	b.WriteString(effectsPreamble)
 	b.WriteString(loopPreamble)
+	b.WriteString(shapingPreamble)
 	root := &rootT{dir: *repo, pkgs: map[string]*pkgInfo{}}
 	var infos []outFn
 	for _, t := range targets {
